@@ -1,36 +1,59 @@
 /-
   C14 — One LAN interface can be shared by threads, including its keep-alive.
 
-  Model: `PyIpmi.Threads` (Model/Threads.lean) — N threads (the keep-alive is one of them), each
-  making any number of `_send_and_receive` calls, cut at every shared access; the racy
-  `next_sequence_number` update is OUTSIDE the lock exactly as in the source.
-  Spec:  `PyIpmi.Spec.Threads.accepts` — the three clauses of the property as a monitor over
-  the wire log and the per-call results.
+  Model: `PyIpmi.Threads` (Model/Threads.lean) — any number of application threads, each making any
+  number of `_send_and_receive` calls cut at every shared access (the racy `next_sequence_number`
+  update is OUTSIDE the lock exactly as in the source); the interface's own keep-alive thread as the
+  loop of `call_repeatedly` (`while not stopped.wait(interval): func()`, the interval elapsing any
+  number of times, at any moment); and — optionally — one application thread that ends with
+  `Rmcp.close_session` (stop the keep-alive, Close Session through the same locked path, then
+  `activated := False`; `IpmiMsg.pack` advances the session sequence number only `if activated`).
+  `Cfg.join` selects what the stopper returned by `call_repeatedly` does: `false` = as shipped
+  (`stopped.set`), `true` = set the event and join the thread (fixes/C14-1.diff).
+  Spec:  `PyIpmi.Spec.Threads.accepts` — the clauses of the property as a monitor over the wire log and
+  the per-call results: (X) exchanges not interleaved, (S) session sequence numbers strictly
+  increasing, (O) every caller its own reply, (C) nothing is transmitted after Close Session.
 
-  For EVERY configuration (any number of threads, any number of calls per thread, any initial
-  counters, none/password/MD5 packing) and EVERY schedule (any list of thread ids — not a
-  preemption bound):
+  For EVERY configuration with `Cfg.Safe` (the stopper joins — or nobody closes the session —; any
+  number of threads, calls per thread and timer ticks, any initial counters, none/password/MD5
+  packing) and EVERY schedule (any list of thread ids — not a preemption bound):
 
   * `source_shape`               the lock scope, the place of the packing and of both sequence-number
-                                 updates, and the keep-alive callable, read from the source on this run,
-                                 are the ones the model hard-wires
-  * `inv_all_schedules`          the inductive invariant holds in every reachable state
+                                 updates, the keep-alive loop, `close_session` and the `activated` guard of
+                                 `IpmiMsg.pack`, read from the source on this run, are the ones the model
+                                 hard-wires; the variant is what the source's stopper does
+  * `inv_all_schedules`          the inductive invariants hold in every reachable state
   * `monitor_accepts_all_schedules`  hence the specification's monitor accepts the wire log and
                                  results of every reachable state; spelled out per clause:
-      `exchanges_not_interleaved`, `session_seq_increasing`, `own_reply`
+      `exchanges_not_interleaved`, `session_seq_increasing`, `own_reply`, `nothing_after_close_session`
   * `mutual_exclusion`           two threads are never both inside the `with` block
-  * `racy_seq_is_harmless`       the unlocked `next_sequence_number` update does lose updates
-                                 (a concrete schedule puts two datagrams with the same request
-                                 sequence and command on the wire) — and by the theorems above the
-                                 property still holds in that run
-  * `no_deadlock`                while a thread has work left, some thread can move
+  * `keepalive_gone_before_close_session`  once the closing thread is past the stopper, every other
+                                 thread — the keep-alive included — has terminated
+  * `deactivated_means_quiet`    once `activated` is False no thread is running any more
+  * `join_waits_without_lock`    the thread waiting in the join does not hold the transaction lock
+  * `no_deadlock`                while a thread has work left, some thread can move — in particular the
+                                 join cannot deadlock
   * `steps_bounded`              every effective step decreases a natural-number measure
-  * `maximal_runs_complete`      in a reachable state where nothing can move, every thread has
-                                 made all its calls and each got the reply to its own datagram
+  * `maximal_runs_complete`      in a reachable state where nothing can move, every thread is finished,
+                                 every application thread made all its calls, each call got its own reply
   * `accepted_trace_ok`          trace validation is sound: a logged access sequence that the
                                  model accepts ends in a state whose wire log and results the
                                  monitor accepts (used by the correspondence: the real wire log
                                  must equal the model's)
+  * `racy_seq_is_harmless`       the unlocked `next_sequence_number` update does lose updates
+                                 (a concrete schedule puts two datagrams with the same request
+                                 sequence and command on the wire) — and the property still holds there
+  * `shipped_without_close_holds`  the variant AS SHIPPED satisfies all of the above as long as no thread
+                                 closes the session (the close-free case: the theorems of the first version)
+
+  and for the variant AS SHIPPED with a closing thread
+
+  * `shipped_keepalive_after_close_session`  a concrete schedule — the interval elapses just before
+                                 `close_session` calls the stopper — in which the keep-alive's Get Device ID
+                                 is transmitted AFTER Close Session and repeats its session sequence number:
+                                 clauses (C) and (S) are false on that run (genuine defect C14-1);
+  * `joined_same_schedule_is_clean`  the same configuration and schedule with the joining stopper:
+                                 the keep-alive's request precedes Close Session, all clauses hold.
 -/
 import PyIpmi.Lemmas.ThreadsProgress
 import PyIpmi.Gen.Threads
@@ -38,52 +61,89 @@ namespace PyIpmi.Props.C14
 open PyIpmi.Threads PyIpmi.Spec.Threads
 
 /-- The shape of `_send_and_receive` / `_send_ipmi_msg` / `IpmiMsg.pack` /
-`Session.increment_sequence_number` / the keep-alive callable, as read from the AST of today's
-working tree, is the one the step function of the model hard-wires (one lock block holding
-packing, transmission and reception; sequence bump before it; nothing re-queued; the keep-alive
-and both public entry points run this program).  A change of that shape in `/repo` regenerates
-`Gen/Threads.lean` and this stops being provable. -/
-theorem source_shape : PyIpmi.Gen.Threads.shape = Shape.expected := by decide
+`Session.increment_sequence_number` / `call_repeatedly` / `close_session`, as read from the AST of today's
+working tree, is the one the step function of the model hard-wires (one lock block holding packing,
+transmission and reception; sequence bump before it; nothing re-queued; the keep-alive and both public
+entry points run this program; the loop looks at the event only in `wait`; `close_session` = stopper,
+`activated` test, locked Close Session, `activated = False`).  The stopper's behaviour is the model's
+variant.  A change of that shape in `/repo` regenerates `Gen/Threads.lean` and this stops being provable. -/
+theorem source_shape : PyIpmi.Gen.Threads.shape = Shape.expected PyIpmi.Gen.Threads.shape.stopperJoins := by
+  decide
 
-theorem inv_all_schedules (c : Cfg) (hs : c.sessSeq ≤ 0xffffffff) (sched : List Nat) :
-    Inv (run (init c) sched) :=
-  run_inv (init_inv c hs) sched
+theorem inv_all_schedules (c : Cfg) (hc : c.Safe) (hs : c.sessSeq ≤ 0xffffffff) (sched : List Nat) :
+    Inv (run (init c) sched) ∧ Tear (run (init c) sched) :=
+  run_inv (init_inv c hs) (init_tear c hc) sched
 
-theorem monitor_accepts_all_schedules (c : Cfg) (hs : c.sessSeq ≤ 0xffffffff) (sched : List Nat) :
+theorem monitor_accepts_all_schedules (c : Cfg) (hc : c.Safe) (hs : c.sessSeq ≤ 0xffffffff) (sched : List Nat) :
     accepts (run (init c) sched).wireChron (run (init c) sched).results = true :=
-  inv_accepts (inv_all_schedules c hs sched)
+  inv_accepts (inv_all_schedules c hc hs sched).1
 
 /-- Clause (X): request/reply exchanges are not interleaved on the socket. -/
-theorem exchanges_not_interleaved (c : Cfg) (hs : c.sessSeq ≤ 0xffffffff) (sched : List Nat) :
+theorem exchanges_not_interleaved (c : Cfg) (hc : c.Safe) (hs : c.sessSeq ≤ 0xffffffff) (sched : List Nat) :
     exchangesOk (run (init c) sched).wireChron = true := by
-  have h := monitor_accepts_all_schedules c hs sched
+  have h := monitor_accepts_all_schedules c hc hs sched
   simp only [accepts, Bool.and_eq_true] at h
-  exact h.1.1
+  exact h.1.1.1
 
 /-- Clause (S): session sequence numbers appear strictly increasing in transmission order
-(up to the 32-bit wrap 0xffffffff → 1 that IPMI prescribes). -/
-theorem session_seq_increasing (c : Cfg) (hs : c.sessSeq ≤ 0xffffffff) (sched : List Nat) :
+(up to the 32-bit wrap 0xffffffff → 1 that IPMI prescribes) — over the whole wire log, Close Session
+included. -/
+theorem session_seq_increasing (c : Cfg) (hc : c.Safe) (hs : c.sessSeq ≤ 0xffffffff) (sched : List Nat) :
     seqIncreasing (run (init c) sched).wireChron = true := by
-  have h := monitor_accepts_all_schedules c hs sched
+  have h := monitor_accepts_all_schedules c hc hs sched
+  simp only [accepts, Bool.and_eq_true] at h
+  exact h.1.1.2
+
+/-- Clause (O): each caller received the reply to its own request. -/
+theorem own_reply (c : Cfg) (hc : c.Safe) (hs : c.sessSeq ≤ 0xffffffff) (sched : List Nat) :
+    ownReply (run (init c) sched).wireChron (run (init c) sched).results = true := by
+  have h := monitor_accepts_all_schedules c hc hs sched
   simp only [accepts, Bool.and_eq_true] at h
   exact h.1.2
 
-/-- Clause (O): each caller received the reply to its own request. -/
-theorem own_reply (c : Cfg) (hs : c.sessSeq ≤ 0xffffffff) (sched : List Nat) :
-    ownReply (run (init c) sched).wireChron (run (init c) sched).results = true := by
-  have h := monitor_accepts_all_schedules c hs sched
+/-- Clause (C): no datagram — of any thread, the keep-alive included — follows Close Session. -/
+theorem nothing_after_close_session (c : Cfg) (hc : c.Safe) (hs : c.sessSeq ≤ 0xffffffff) (sched : List Nat) :
+    closeLast (run (init c) sched).wireChron = true := by
+  have h := monitor_accepts_all_schedules c hc hs sched
   simp only [accepts, Bool.and_eq_true] at h
   exact h.2
 
-theorem mutual_exclusion (c : Cfg) (hs : c.sessSeq ≤ 0xffffffff) (sched : List Nat)
+theorem mutual_exclusion (c : Cfg) (hc : c.Safe) (hs : c.sessSeq ≤ 0xffffffff) (sched : List Nat)
     (t1 t2 : Nat) (th1 th2 : Thr)
     (h1 : (run (init c) sched).thr[t1]? = some th1) (h2 : (run (init c) sched).thr[t2]? = some th2)
     (l1 : inLock th1.pc = true) (l2 : inLock th2.pc = true) : t1 = t2 := by
-  have hi := inv_all_schedules c hs sched
+  have hi := (inv_all_schedules c hc hs sched).1
   have a := (hi.owner t1 th1 h1).mp l1
   have b := (hi.owner t2 th2 h2).mp l2
   rw [a] at b
   injection b
+
+/-- When the closing thread has left the stopper (it is about to test `activated`, is sending Close
+Session, or has sent it), every other thread has terminated — the keep-alive thread too: this is what
+the join buys. -/
+theorem keepalive_gone_before_close_session (c : Cfg) (hc : c.Safe) (hs : c.sessSeq ≤ 0xffffffff)
+    (sched : List Nat) (t t' : Nat) (th th' : Thr)
+    (h : (run (init c) sched).thr[t]? = some th) (h' : (run (init c) sched).thr[t']? = some th')
+    (hcl : th.closing = true) (ne : t' ≠ t) : th'.pc = .done :=
+  (inv_all_schedules c hc hs sched).2.late t th h hcl t' th' h' ne
+
+/-- Once `Session.activated` is False, no thread is running any more. -/
+theorem deactivated_means_quiet (c : Cfg) (hc : c.Safe) (hs : c.sessSeq ≤ 0xffffffff) (sched : List Nat)
+    (ha : (run (init c) sched).activated = false) (t : Nat) (th : Thr)
+    (h : (run (init c) sched).thr[t]? = some th) : th.pc = .done :=
+  (inv_all_schedules c hc hs sched).2.deact ha t th h
+
+/-- The thread that waits in the join does not hold the transaction lock (and the event is set): the
+keep-alive thread can always finish the call it is in. -/
+theorem join_waits_without_lock (c : Cfg) (hc : c.Safe) (hs : c.sessSeq ≤ 0xffffffff) (sched : List Nat)
+    (t : Nat) (th : Thr) (h : (run (init c) sched).thr[t]? = some th) (hp : th.pc = .joinKa) :
+    (run (init c) sched).lock ≠ some t ∧ (run (init c) sched).stopped = true := by
+  have hi := inv_all_schedules c hc hs sched
+  refine ⟨?_, hi.2.stop t th h hp⟩
+  intro hl
+  have := (hi.1.owner t th h).mpr hl
+  rw [hp] at this
+  cases this
 
 /-- Two datagrams of different threads carry the same IPMB request sequence and command. -/
 def sameRqOnWire (w : List WEv) : Bool :=
@@ -95,36 +155,86 @@ def sameRqOnWire (w : List WEv) : Bool :=
 def allDone (s : Sys) : Bool := s.thr.all fun th => th.pc == .done
 
 /-- two threads, one Get Device ID each, session sequence starting at 7 -/
-def racyCfg : Cfg := ⟨4, 7, 0, [(1, 1), (1, 1)]⟩
+def racyCfg : Cfg := { nextSeq := 4, sessSeq := 7, xl := 0, threads := [(1, 1), (1, 1)] }
 /-- both load `next_sequence_number` before either stores it -/
-def racySched : List Nat := [0, 1, 0, 1, 0, 1] ++ List.replicate 8 0 ++ List.replicate 8 1
+def racySched : List Nat := [0, 1, 0, 1, 0, 1] ++ List.replicate 9 0 ++ List.replicate 9 1
 
 theorem racy_seq_is_harmless :
     sameRqOnWire (run (init racyCfg) racySched).wire = true ∧
     allDone (run (init racyCfg) racySched) = true ∧
     accepts (run (init racyCfg) racySched).wireChron (run (init racyCfg) racySched).results = true :=
-  ⟨by decide, by decide, monitor_accepts_all_schedules racyCfg (by decide) racySched⟩
+  ⟨by decide, by decide, monitor_accepts_all_schedules racyCfg ⟨Or.inl rfl, by decide⟩ (by decide) racySched⟩
 
-theorem no_deadlock (c : Cfg) (hs : c.sessSeq ≤ 0xffffffff) (sched : List Nat) (t0 : Nat) (th0 : Thr)
-    (hget : (run (init c) sched).thr[t0]? = some th0) (hnd : th0.pc ≠ .done) :
+/-- While some thread is neither finished nor (the keep-alive loop) asleep for good, some thread can
+move.  In particular the join cannot deadlock. -/
+theorem no_deadlock (c : Cfg) (hc : c.Safe) (hs : c.sessSeq ≤ 0xffffffff) (sched : List Nat) (t0 : Nat)
+    (th0 : Thr) (hget : (run (init c) sched).thr[t0]? = some th0) (hnp : ¬ parked (run (init c) sched) th0) :
     ∃ t, (step (run (init c) sched) t).isSome = true :=
-  deadlock_free (inv_all_schedules c hs sched) hget hnd
+  deadlock_free (inv_all_schedules c hc hs sched).1 (inv_all_schedules c hc hs sched).2 hget hnp
 
 theorem steps_bounded (s s' : Sys) (t : Nat) (h : step s t = some s') : measure s' < measure s :=
   step_decreases h
 
-theorem maximal_runs_complete (c : Cfg) (hs : c.sessSeq ≤ 0xffffffff) (sched : List Nat)
-    (hterm : ∀ t, step (run (init c) sched) t = none) (t : Nat) (p : Nat × Nat)
-    (hp : c.threads[t]? = some p) :
-    ∃ th, (run (init c) sched).thr[t]? = some th ∧ th.pc = .done ∧ th.results.length = p.1 ∧
-      ∀ r ∈ th.results, ∃ n, r = .ok n n ∧ sentBy (run (init c) sched).wireChron t n = true :=
-  terminal_complete (inv_all_schedules c hs sched) (run_acc (init_acc c) sched) hterm t p hp
+/-- In a reachable state where nothing can move: every thread is finished (the keep-alive loop:
+finished, or asleep with no interval left to elapse and nobody having stopped it), each call made got
+the reply to the datagram that same thread sent, and every application thread other than the closing
+one made all its calls. -/
+theorem maximal_runs_complete (c : Cfg) (hc : c.Safe) (hs : c.sessSeq ≤ 0xffffffff) (sched : List Nat)
+    (hterm : ∀ t, step (run (init c) sched) t = none) :
+    (∀ (t : Nat) (th : Thr), (run (init c) sched).thr[t]? = some th → parked (run (init c) sched) th ∧
+      ∀ r ∈ th.results, ∃ n, r = .ok n n ∧ sentBy (run (init c) sched).wireChron t n = true) ∧
+    (∀ (t : Nat) (p : Nat × Nat), c.threads[t]? = some p → c.closer ≠ some t →
+      ∃ th, (run (init c) sched).thr[t]? = some th ∧ th.pc = .done ∧ th.results.length = p.1) :=
+  have h := run_all (init_inv c hs) (init_tear c hc) (init_acc c) sched
+  terminal_complete h.1 h.2.1 h.2.2 hterm
 
-theorem accepted_trace_ok (c : Cfg) (hs : c.sessSeq ≤ 0xffffffff) (tr : List (Nat × Act)) (s : Sys)
-    (h : replay (init c) tr = .ok s) : accepts s.wireChron s.results = true := by
+theorem accepted_trace_ok (c : Cfg) (hc : c.Safe) (hs : c.sessSeq ≤ 0xffffffff) (tr : List (Nat × Act))
+    (s : Sys) (h : replay (init c) tr = .ok s) : accepts s.wireChron s.results = true := by
   have := replayFrom_run h
   subst this
-  exact monitor_accepts_all_schedules c hs _
+  exact monitor_accepts_all_schedules c hc hs _
+
+/-- The close-free case (the first version of this file): in the variant AS SHIPPED (`join = false`)
+every clause holds for every schedule as long as no thread closes the session. -/
+theorem shipped_without_close_holds (c : Cfg) (_hj : c.join = false) (hcl : c.closer = none)
+    (hcmd : ∀ p ∈ c.threads, p.2 ≠ closeCmd) (hs : c.sessSeq ≤ 0xffffffff) (sched : List Nat) :
+    Inv (run (init c) sched) ∧ accepts (run (init c) sched).wireChron (run (init c) sched).results = true :=
+  have hc : c.Safe := ⟨Or.inr hcl, hcmd⟩
+  ⟨(inv_all_schedules c hc hs sched).1, monitor_accepts_all_schedules c hc hs sched⟩
+
+/-! ### the variant as shipped, with a thread that closes the session (defect C14-1) -/
+
+/-- one application thread that only closes the session (thread 0), the keep-alive thread (thread 1)
+whose interval elapses once; stopper as shipped -/
+def shippedCfg : Cfg :=
+  { nextSeq := 4, sessSeq := 7, xl := 0, threads := [(0, 1)], ka := some 1, closer := some 0, join := false }
+/-- the interval elapses (keep-alive: `wait` returned False) — then `close_session` runs to its end
+(stopper, Close Session, `activated = False`) — then the keep-alive makes the call it had decided on -/
+def lateTickSched : List Nat := [1] ++ List.replicate 17 0 ++ List.replicate 11 1
+
+theorem shipped_keepalive_after_close_session :
+    (run (init shippedCfg) lateTickSched).wireChron =
+      [.tx 0 0 8 5 0x3c, .rx 0 0, .tx 1 1 8 6 1, .rx 1 1] ∧
+    closeLast (run (init shippedCfg) lateTickSched).wireChron = false ∧
+    seqIncreasing (run (init shippedCfg) lateTickSched).wireChron = false ∧
+    allDone (run (init shippedCfg) lateTickSched) = true :=
+  ⟨by decide, by decide, by decide, by decide⟩
+
+/-- the same configuration with the joining stopper; the same schedule, continued: the closing thread is
+held in the join until the keep-alive has finished its call (which now advances the sequence number: three
+more steps) and left its loop, and only then goes on -/
+def joinedCfg : Cfg := { shippedCfg with join := true }
+def lateTickSchedJoined : List Nat := lateTickSched ++ [1, 1, 1] ++ List.replicate 15 0
+
+theorem joined_same_schedule_is_clean :
+    (run (init joinedCfg) lateTickSchedJoined).wireChron =
+      [.tx 1 0 8 5 1, .rx 1 0, .tx 0 1 9 6 0x3c, .rx 0 1] ∧
+    (run (init joinedCfg) lateTickSchedJoined).activated = false ∧
+    allDone (run (init joinedCfg) lateTickSchedJoined) = true ∧
+    accepts (run (init joinedCfg) lateTickSchedJoined).wireChron
+      (run (init joinedCfg) lateTickSchedJoined).results = true :=
+  ⟨by decide +kernel, by decide +kernel, by decide +kernel,
+   monitor_accepts_all_schedules joinedCfg ⟨Or.inl rfl, by decide⟩ (by decide) lateTickSchedJoined⟩
 
 /-! ### non-vacuity -/
 
@@ -133,13 +243,29 @@ example : (run (init racyCfg) racySched).wireChron =
     [.tx 0 0 8 5 1, .rx 0 0, .tx 1 1 9 5 1, .rx 1 1] := by decide
 example : (run (init racyCfg) racySched).results = [⟨0, 0, some 0⟩, ⟨1, 1, some 1⟩] := by decide
 
--- three threads (the third is the keep-alive), MD5 packing, wrap of the session sequence
-def wrapCfg : Cfg := ⟨63, 0xfffffffe, 1, [(2, 1), (1, 4), (1, 1)]⟩
+-- two workers and the keep-alive, MD5 packing, wrap of the session sequence
+def wrapCfg : Cfg := { nextSeq := 63, sessSeq := 0xfffffffe, xl := 1, threads := [(2, 1), (1, 4)], ka := some 1 }
 def wrapSched : List Nat :=
   [2, 0, 0, 1, 0, 1, 1, 2, 2] ++ List.replicate 40 1 ++ List.replicate 40 0 ++ List.replicate 40 2
-example : allDone (run (init wrapCfg) wrapSched) = true := by decide +kernel
+example : wrapCfg.Safe := ⟨Or.inl rfl, by decide⟩
 example : (run (init wrapCfg) wrapSched).wireChron.filterMap
     (fun e => match e with | .tx _ _ s _ _ => some s | _ => none) = [0xffffffff, 1, 2, 3] := by decide +kernel
+-- … at the end the workers are finished and the keep-alive loop is asleep in `wait` (nobody stopped it)
+example : (run (init wrapCfg) wrapSched).thr.map (·.pc) = [.done, .done, .kaWait] := by decide +kernel
+
+-- two workers, a closing thread with one call of its own, the keep-alive firing twice (joining stopper):
+-- the closing thread waits for the workers, then for the keep-alive, then closes
+def closeCfg : Cfg :=
+  { nextSeq := 0, sessSeq := 0x20, xl := 0, threads := [(1, 1), (1, 4), (1, 8)], ka := some 2, closer := some 2 }
+def closeSched : List Nat :=
+  [3, 2, 2, 0, 3, 3] ++ List.replicate 14 2 ++ List.replicate 14 3 ++ List.replicate 14 0 ++ List.replicate 14 1 ++
+    List.replicate 30 2 ++ List.replicate 14 3 ++ List.replicate 30 2
+example : closeCfg.Safe := ⟨Or.inl rfl, by decide⟩
+example : allDone (run (init closeCfg) closeSched) = true := by decide +kernel
+example : (run (init closeCfg) closeSched).activated = false := by decide +kernel
+example : (run (init closeCfg) closeSched).wireChron.filterMap
+    (fun e => match e with | .tx t _ s _ c => some (t, s, c) | _ => none) =
+    [(2, 0x21, 8), (3, 0x22, 1), (0, 0x23, 1), (1, 0x24, 4), (3, 0x25, 1), (2, 0x26, 0x3c)] := by decide +kernel
 
 -- the monitor is not trivially true: each clause rejects a log that breaks it
 example : exchangesOk [.tx 0 0 8 1 1, .tx 1 1 9 2 1, .rx 0 0, .rx 1 1] = false := by decide
@@ -151,11 +277,18 @@ example : seqIncreasing [.tx 0 0 0xffffffff 1 1, .rx 0 0, .tx 1 1 0 2 1] = false
 example : ownReply [.tx 0 0 8 1 1, .rx 0 0, .tx 1 1 9 2 1, .rx 1 1] [⟨0, 0, some 1⟩] = false := by decide
 example : ownReply [.tx 0 0 8 1 1, .rx 0 0] [⟨0, 0, none⟩] = false := by decide
 example : ownReply [.tx 0 0 8 1 1, .rx 0 0] [⟨1, 0, some 0⟩] = false := by decide
+example : closeLast [.tx 0 0 8 1 0x3c, .rx 0 0, .tx 1 1 9 2 1, .rx 1 1] = false := by decide
+example : closeLast [.tx 1 0 8 1 1, .rx 1 0, .tx 0 1 9 2 0x3c, .rx 0 1] = true := by decide
 
 -- the model does not accept a trace that sends without the lock
-example : (replay (init racyCfg) [(0, .ldNS 4), (0, .stNS 5), (0, .ldNS 5), (0, .ldSS 7)]).toOption = none := by
+example : (replay (init racyCfg) [(0, .ldNS 4), (0, .stNS 5), (0, .ldNS 5), (0, .ldAct true)]).toOption = none := by
   decide
-example : (replay (init racyCfg) [(0, .ldNS 4), (0, .stNS 5), (0, .ldNS 5), (0, .acq), (0, .ldSS 7)]).toOption.isSome
+example : (replay (init racyCfg) [(0, .ldNS 4), (0, .stNS 5), (0, .ldNS 5), (0, .acq), (0, .ldAct true),
+    (0, .ldSS 7)]).toOption.isSome = true := by decide
+-- … nor, with the joining stopper, a closing thread that goes on while the keep-alive is in a call
+example : (replay (init joinedCfg) [(1, .tick), (0, .await), (0, .stopSet), (0, .ldAct true)]).toOption = none := by
+  decide
+example : (replay (init shippedCfg) [(1, .tick), (0, .await), (0, .stopSet), (0, .ldAct true)]).toOption.isSome
     = true := by decide
 
 end PyIpmi.Props.C14
